@@ -264,7 +264,7 @@ def run(F, rep):
 
     # ------------------------------------------------------------------ W: walks over the component tree are complete
     import recursion as _recw
-    _recw.rule_walkers(F, rep, 'C11.W1', ['clone', 'fixComponentUnits', 'generateEquivalenceMap'], 3, 'copying components, their units links and equivalences')
+    _recw.rule_walkers(F, rep, 'C11.W2', ['clone', 'fixComponentUnits', 'generateEquivalenceMap'], 3, 'copying components, their units links and equivalences')
 
     # ------------------------------------------------------------------ clause shared with C09: Model::clone re-creates equivalences only for variables whose component reports the model as owner
     if not getattr(rep, 'nested', False):
